@@ -281,6 +281,11 @@ func runC20(cs CaseSpec) *CaseResult {
 	}()
 	defer close(stop)
 
+	type keptResp struct {
+		call      int
+		got, want proxy.CommitResponse
+	}
+	var kept []keptResp
 	rounds := int(cs.I("rounds", 60))
 	faults := cs.I("faults", 0) == 1 && fw != nil
 	downFor := 0
@@ -347,6 +352,19 @@ func runC20(cs CaseSpec) *CaseResult {
 				return res
 			}
 			res.count("proxy_commit_responses_compared", 1)
+			// Babble keeps what it received (it writes it into the block it signs): the
+			// responses handed back by earlier calls must still be what the
+			// application answered then
+			kept = append(kept, keptResp{i, got, deepCopyResponse(want)})
+			for _, kr := range kept {
+				res.count("proxy_earlier_responses_rechecked", 1)
+				if !sameResponse(kr.want, kr.got) {
+					res.violate("C20", "C20:earlier-commit-response-changed-later",
+						fmt.Sprintf("the response Babble received for commit call %d was altered by call %d: it no longer is what the application answered (%d receipts then, %d now)", kr.call, i, len(kr.want.InternalTransactionReceipts), len(kr.got.InternalTransactionReceipts)),
+						map[string]interface{}{"mode": mode, "earlier_call": kr.call, "later_call": i})
+					return res
+				}
+			}
 		} else {
 			res.count("proxy_commit_calls_failing_under_injected_faults", 1)
 			if !cut && !faults {
@@ -504,4 +522,13 @@ func init() {
 		Run:            runC20,
 		PerCaseTimeout: 10 * time.Minute,
 	})
+}
+
+func deepCopyResponse(r proxy.CommitResponse) proxy.CommitResponse {
+	var out proxy.CommitResponse
+	wireCopy(&r, &out)
+	if r.StateHash != nil && out.StateHash == nil {
+		out.StateHash = []byte{}
+	}
+	return out
 }
